@@ -81,6 +81,9 @@ pub enum FileCase {
     /// truncate to `trunc.1` bytes after `trunc.0` polls
     Read { size: u64, a: u64, b: u64, cap: usize, trunc: Option<(u32, u64)>, via_serve: bool },
     Meta { size: u64 },
+    /// ONE entity: `reads` complete streams of the whole file (plus a partial one), then the file
+    /// is truncated to `trunc_to` bytes, then streamed again
+    Reuse { size: u64, reads: u32, trunc_to: u64 },
     NonRegular,
     /// a sparse file of `size` bytes (zeros with a marker byte every 1 MiB - 1): long streams of
     /// many consecutive full reads
@@ -94,6 +97,7 @@ impl FileCase {
         match self {
             FileCase::Read { size, a, b, cap, trunc, via_serve } => json!({"read": {"size": size, "a": a, "b": b, "cap": cap, "trunc": trunc.map(|t| json!([t.0, t.1])), "via_serve": via_serve}}),
             FileCase::Meta { size } => json!({"meta": {"size": size}}),
+            FileCase::Reuse { size, reads, trunc_to } => json!({"reuse": {"size": size, "reads": reads, "trunc_to": trunc_to}}),
             FileCase::NonRegular => json!("non_regular"),
             FileCase::BigSparse { size, a, b } => json!({"big_sparse": {"size": size, "a": a, "b": b}}),
             FileCase::Concurrent { size, tasks, per_task, seed } => json!({"concurrent": {"size": size, "tasks": tasks, "per_task": per_task, "seed": seed}}),
@@ -113,6 +117,8 @@ impl FileCase {
             FileCase::Concurrent { size: m["size"].as_u64().unwrap_or(0), tasks: m["tasks"].as_u64().unwrap_or(2) as u32, per_task: m["per_task"].as_u64().unwrap_or(1) as u32, seed: m["seed"].as_u64().unwrap_or(0) }
         } else if let Some(m) = v.get("big_sparse") {
             FileCase::BigSparse { size: m["size"].as_u64().unwrap_or(0), a: m["a"].as_u64().unwrap_or(0), b: m["b"].as_u64().unwrap_or(0) }
+        } else if let Some(m) = v.get("reuse") {
+            FileCase::Reuse { size: m["size"].as_u64().unwrap_or(0), reads: m["reads"].as_u64().unwrap_or(1) as u32, trunc_to: m["trunc_to"].as_u64().unwrap_or(0) }
         } else if let Some(m) = v.get("meta") {
             FileCase::Meta { size: m["size"].as_u64().unwrap_or(0) }
         } else {
@@ -558,6 +564,56 @@ fn run_meta(size: u64, sink: &mut Sink) -> (Verdict, Option<u64>, Value) {
     }
 }
 
+fn run_reuse(size: u64, reads: u32, trunc_to: u64, sink: &mut Sink) -> (Verdict, Option<u64>, Value) {
+    let desc = FileCase::Reuse { size, reads, trunc_to }.to_json();
+    let dir = TempDir::new("c18r");
+    let path = dir.0.join("f");
+    make_file(&path, size);
+    let want = content(0, size as usize);
+    let r = crate::util::catch(|| -> Result<Option<(String, String)>, String> {
+        let crf = Crf::new(File::open(&path).map_err(|e| e.to_string())?, http::HeaderMap::new()).map_err(|e| e.to_string())?;
+        for i in 0..reads {
+            let o = stream_read(&crf, 0, size, None, &path);
+            if o.terminal != "end" || o.data != want {
+                return Ok(Some(("reuse-read-wrong".into(), format!("read {} of the intact file through one entity: terminal {}, {} of {} bytes, equal = {}", i, o.terminal, o.data.len(), size, o.data == want))));
+            }
+            if size >= 4 {
+                let (a, b) = (size / 4, size - size / 4);
+                let o = stream_read(&crf, a, b, None, &path);
+                if o.terminal != "end" || o.data != want[a as usize..b as usize] {
+                    return Ok(Some(("reuse-read-wrong".into(), format!("partial read {}..{} after {} whole reads: terminal {}, {} bytes", a, b, i + 1, o.terminal, o.data.len()))));
+                }
+            }
+        }
+        File::options().write(true).open(&path).and_then(|f| f.set_len(trunc_to)).map_err(|e| e.to_string())?;
+        // what is still there is still served
+        if trunc_to > 0 {
+            let o = stream_read(&crf, 0, trunc_to, None, &path);
+            if o.terminal != "end" || o.data != want[..trunc_to as usize] {
+                return Ok(Some(("reuse-read-wrong|after-truncation".into(), format!("range 0..{} (still present) after truncation: terminal {}, {} bytes", trunc_to, o.terminal, o.data.len()))));
+            }
+        }
+        // a range that reaches past the new end must fail - never end short, never serve stale bytes
+        let o = stream_read(&crf, 0, size, None, &path);
+        if !o.terminal.starts_with("err:") {
+            return Ok(Some((format!("truncated-but-{}|after-{}-reads", if o.terminal == "end" { "clean-end" } else { "no-terminal" }, reads.min(3)), format!("file of {} bytes read {} time(s) through one entity, truncated to {}, streamed again: terminal {} after {} bytes", size, reads, trunc_to, o.terminal, o.data.len()))));
+        }
+        if o.data.len() as u64 > trunc_to || o.data != want[..o.data.len()] {
+            return Ok(Some(("truncated-stale-or-wrong-bytes".into(), format!("after truncation to {} the stream delivered {} bytes before failing (equal to the old prefix: {})", trunc_to, o.data.len(), o.data == want[..o.data.len().min(want.len())]))));
+        }
+        Ok(None)
+    });
+    match r {
+        Err(p) => (Verdict::viol(format!("panic@{}", norm_loc(&p)), p), None, desc),
+        Ok(Err(e)) => (Verdict::DontCare(format!("file system operation failed: {}", e)), None, desc),
+        Ok(Ok(Some((sig, msg)))) => (Verdict::viol(sig, msg), None, desc),
+        Ok(Ok(None)) => {
+            sink.count("entity_reuse_histories");
+            (Verdict::Ok, Some(hash64(&("reuse", size, reads, trunc_to))), desc)
+        }
+    }
+}
+
 fn run_non_regular(sink: &mut Sink) -> (Verdict, Option<u64>, Value) {
     let desc = FileCase::NonRegular.to_json();
     let dir = TempDir::new("c18n");
@@ -604,6 +660,7 @@ fn run_case(c: &FileCase, sink: &mut Sink) {
     let (v, nt, desc) = match c {
         FileCase::Read { size, a, b, cap, trunc, via_serve } => run_read(*size, *a, *b, *cap, *trunc, *via_serve, sink),
         FileCase::Meta { size } => run_meta(*size, sink),
+        FileCase::Reuse { size, reads, trunc_to } => run_reuse(*size, *reads, *trunc_to, sink),
         FileCase::NonRegular => run_non_regular(sink),
         FileCase::BigSparse { size, a, b } => run_big_sparse(*size, *a, *b, sink),
         FileCase::Concurrent { size, tasks, per_task, seed } => run_concurrent(*size, *tasks, *per_task, *seed, sink),
@@ -629,7 +686,7 @@ impl Prop for C18 {
         "fault_enumeration"
     }
     fn rule(&self, ctx: &Ctx) -> String {
-        format!("real temporary files of sizes {:?} (position-hash content) on a multi-thread tokio runtime. Per size: every range with start <= end over {{0, 1, 65535, 65536, 65537, 131071, 131072, size-1, size}} x read cap {{none, 65536, 4097, 1}} (hook: short reads); truncation to {{0, start, start+1, 65535, 65536, end-1}} before poll 0, 1 and 2; the same through serve() with a Range header; metadata/ETag histories (two instances, length +1, mtime +-1ns / +-1s, replacement by a same-size same-mtime copy); construction on a directory, /dev/null and a FIFO; sparse files of 70 MiB - 2 GiB streamed completely (thousands of consecutive full reads); 16 tasks streaming unaligned ranges of one shared entity concurrently. Non-trivial = distinct case judged (bytes compared, or truncation answered by an error within range-length+8 ready polls)", c18_sizes(ctx))
+        format!("real temporary files of sizes {:?} (position-hash content) on a multi-thread tokio runtime. Per size: every range with start <= end over {{0, 1, 65535, 65536, 65537, 131071, 131072, size-1, size}} x read cap {{none, 65536, 4097, 1}} (hook: short reads); truncation to {{0, start, start+1, 65535, 65536, end-1}} before poll 0, 1 and 2; the same through serve() with a Range header; metadata/ETag histories (two instances, length +1, mtime +-1ns / +-1s, replacement by a same-size same-mtime copy); construction on a directory, /dev/null and a FIFO; one entity streamed 1..6 times and then truncated (files of 1 .. 200001 bytes); sparse files of 70 MiB - 2 GiB streamed completely (thousands of consecutive full reads); 16 tasks streaming unaligned ranges of one shared entity concurrently. Non-trivial = distinct case judged (bytes compared, or truncation answered by an error within range-length+8 ready polls)", c18_sizes(ctx))
     }
     fn n_blocks(&self, ctx: &Ctx) -> usize {
         c18_sizes(ctx).len() * 4 + 1 + if ctx.leg.slow() { 1 } else { 16 + 3 + 2 }
@@ -672,6 +729,17 @@ impl Prop for C18 {
             run_case(&FileCase::NonRegular, sink);
             for s in &sizes {
                 run_case(&FileCase::Meta { size: *s }, sink);
+            }
+            // one entity streamed several times, then the file shrinks
+            for size in [1u64, 100, 4096, 4097, 65_536, 200_001] {
+                for reads in [1u32, 2, 3, 6] {
+                    for trunc_to in [0, size / 2] {
+                        if ctx.leg.slow() && (reads > 2 || size > 5000) {
+                            continue;
+                        }
+                        run_case(&FileCase::Reuse { size, reads, trunc_to }, sink);
+                    }
+                }
             }
             return;
         }
